@@ -7,6 +7,7 @@ import Soa.Model.Views
 import Soa.Model.SkelSem
 import Soa.Extracted.Skel
 import Soa.Model.SkelRefs
+import Soa.Model.SkelIter
 import Soa.Model.Loop
 import Soa.Extracted.Loops
 /-!
@@ -73,6 +74,84 @@ def fromIter (dr : Bool) (empty : Cols) (es : List Cols) : Model.Out :=
   match run { dr := dr, ps := [.elems es], M := methods dr empty, fuel := 2 } lp_PVec_std_iter_FromIterator_P_from_iter empty with
   | some o => (match o.ret with | some c => { o with st := c } | none => Model.extend empty es)
   | none => Model.extend empty es
+/-! views and iterators: the skeletons extracted from /repo applied to a value whose fields all cover the same window;
+    the answer must again be the same in every field (`winOfT` / `posOfT`), else the step is `stuck`.  Where a skeleton can
+    no longer be read the hand-written window function is used. -/
+
+def leavesT : VT LV → List LV
+  | .leaf a => [a]
+  | .nest fs => leavesTL fs
+where leavesTL : List (VT LV) → List LV
+  | [] => []
+  | f :: fs => leavesT f ++ leavesTL fs
+
+def winOfT (t : VT LV) : Option View.Win :=
+  match leavesT t with
+  | .win w :: rest => if rest.all (fun v => v == .win w) then some w else none
+  | _ => none
+
+def posOfT (t : VT LV) : Option Nat :=
+  match leavesT t with
+  | .pos p :: rest => if rest.all (fun v => v == .pos p) ∧ 0 ≤ p then some p.toNat else none
+  | _ => none
+
+def viewWin (f : Fn) (sh : Shape) (w : View.Win) (args : List VArg) (hand : View.Res View.Win) : View.Res View.Win :=
+  match runView f (VT.uniform (.win w) sh) args with
+  | .ok (.one t) => (match winOfT t with | some w' => .ok w' | none => .stuck)
+  | .ok .none_ => .none
+  | .ok (.two _ _) => .stuck
+  | .panic => .panic
+  | .stuck => hand
+
+def viewPos (f : Fn) (sh : Shape) (w : View.Win) (hand : View.Res Nat) : View.Res Nat :=
+  match runView f (VT.uniform (.win w) sh) [] with
+  | .ok (.one t) => (match posOfT t with | some p => .ok p | none => .stuck)
+  | .ok .none_ => .none
+  | .ok (.two _ _) => .stuck
+  | .panic => .panic
+  | .stuck => hand
+
+def viewPosWin (f : Fn) (sh : Shape) (w : View.Win) (hand : View.Res (Nat × View.Win)) : View.Res (Nat × View.Win) :=
+  match runView f (VT.uniform (.win w) sh) [] with
+  | .ok (.two a b) => (match posOfT a, winOfT b with | some p, some w' => .ok (p, w') | _, _ => .stuck)
+  | .ok .none_ => .none
+  | .ok (.one _) => .stuck
+  | .panic => .panic
+  | .stuck => hand
+
+def splitAt (sh : Shape) (m : Bool) (w : View.Win) (k side : Nat) : View.Res View.Win :=
+  match runView (if m then sk_PSliceMut_a_split_at_mut else sk_PSlice_a_split_at) (VT.uniform (.win w) sh) [.nat k] with
+  | .ok (.two a b) => (match winOfT (if side = 0 then a else b) with | some w' => .ok w' | none => .stuck)
+  | .ok _ => .stuck
+  | .panic => .panic
+  | .stuck => View.splitAt w k side
+
+def splitFirst (sh : Shape) (m : Bool) (w : View.Win) : View.Res (Nat × View.Win) :=
+  viewPosWin (if m then sk_PSliceMut_a_split_first_mut else sk_PSlice_a_split_first) sh w (View.splitFirst w)
+def splitLast (sh : Shape) (m : Bool) (w : View.Win) : View.Res (Nat × View.Win) :=
+  viewPosWin (if m then sk_PSliceMut_a_split_last_mut else sk_PSlice_a_split_last) sh w (View.splitLast w)
+def first (sh : Shape) (m : Bool) (w : View.Win) : View.Res Nat :=
+  viewPos (if m then sk_PSliceMut_a_first_mut else sk_PSlice_a_first) sh w (View.first w)
+def last (sh : Shape) (m : Bool) (w : View.Win) : View.Res Nat :=
+  viewPos (if m then sk_PSliceMut_a_last_mut else sk_PSlice_a_last) sh w (View.last w)
+/-- `reborrow` of either view kind -/
+def reborrow (sh : Shape) (m : Bool) (w : View.Win) : View.Res View.Win :=
+  viewWin (if m then sk_PSliceMut_a_reborrow else sk_PSlice_a_reborrow) sh w [] (.ok w)
+/-- shared view of a mutable view (`as_ref` / `as_slice`); a shared view is already one -/
+def asShared (sh : Shape) (m : Bool) (tok : String) (w : View.Win) : View.Res View.Win :=
+  if m then viewWin (if tok == "as_ref" then sk_PSliceMut_a_as_ref else sk_PSliceMut_a_as_slice) sh w [] (.ok w) else .ok w
+
+/-- one step of an iterator over the window `w`: the yielded position and the remaining window -/
+def iterStep (sh : Shape) (mutIter back : Bool) (w : View.Win) : Option Nat × View.Win :=
+  let f := match mutIter, back with
+    | false, false => sk_PIter_a_Iterator_next | false, true => sk_PIter_a_DoubleEndedIterator_next_back
+    | true, false => sk_PIterMut_a_Iterator_next | true, true => sk_PIterMut_a_DoubleEndedIterator_next_back
+  let hand := if back then View.nextBack w else View.next w
+  match runIterStep f (VT.uniform (.win w) sh) with
+  | .ok (none, t) => (match winOfT t with | some w' => (none, w') | none => hand)
+  | .ok (some i, t) => (match posOfT i, winOfT t with | some p, some w' => (some p, w') | _, _ => hand)
+  | _ => hand
+
 end Gen
 
 structure Ctx where
@@ -512,29 +591,33 @@ def walkPath (cx : Ctx) (useIR : Bool) : List String → View.Win → Bool → P
       | .stuck => (.stuck, m', rest)
     match ps.headD "" with
     | "write" => (.win w, m, t :: rest)
-    | "split_at" => cont (View.splitAt w a b) m
+    | "split_at" => cont (if useIR then Gen.splitAt cx.shape m w a b else View.splitAt w a b) m
     | "split_first" =>
-      match View.splitFirst w with
+      match (if useIR then Gen.splitFirst cx.shape m w else View.splitFirst w) with
       | .ok (e, r) => if ps.getD 1 "" == "elem" then (.elem e true, m, rest) else walkPath cx useIR rest r m
       | _ => (.none, m, rest)
     | "split_last" =>
-      match View.splitLast w with
+      match (if useIR then Gen.splitLast cx.shape m w else View.splitLast w) with
       | .ok (e, r) => if ps.getD 1 "" == "elem" then (.elem e true, m, rest) else walkPath cx useIR rest r m
       | _ => (.none, m, rest)
     | "range" => cont (viaIdx { form := .range, start := a, end_ := b } false) m
     | "rangeto" => cont (viaIdx { form := .rangeTo, end_ := a } false) m
     | "rangefrom" => cont (viaIdx { form := .rangeFrom, start := a } false) m
     | "incl" => cont (viaIdx { form := .rangeIncl, start := a, end_ := b } false) m
-    | "first" => (match View.first w with | .ok e => (.elem e true, m, rest) | _ => (.none, m, rest))
-    | "last" => (match View.last w with | .ok e => (.elem e true, m, rest) | _ => (.none, m, rest))
+    | "first" => (match (if useIR then Gen.first cx.shape m w else View.first w) with
+        | .ok e => (.elem e true, m, rest) | .panic => (.panic, m, rest) | .stuck => (.stuck, m, rest) | .none => (.none, m, rest))
+    | "last" => (match (if useIR then Gen.last cx.shape m w else View.last w) with
+        | .ok e => (.elem e true, m, rest) | .panic => (.panic, m, rest) | .stuck => (.stuck, m, rest) | .none => (.none, m, rest))
     | "get" =>
       (match viaIdx { form := .pos, pos := a } true with
        | .ok w' => (.elem w'.s true, m, rest) | .none => (.none, m, rest) | .panic => (.panic, m, rest) | .stuck => (.stuck, m, rest))
     | "idx" =>
       (match viaIdx { form := .pos, pos := a } false with
        | .ok w' => (.elem w'.s false, m, rest) | .none => (.none, m, rest) | .panic => (.panic, m, rest) | .stuck => (.stuck, m, rest))
-    | "reborrow" | "rebdrop" | "peek" => walkPath cx useIR rest w m   -- a child view taken and dropped leaves the parent as it was
-    | "as_ref" | "as_slice" => walkPath cx useIR rest w false
+    | "reborrow" => if useIR then cont (Gen.reborrow cx.shape m w) m else walkPath cx useIR rest w m
+    | "rebdrop" | "peek" => walkPath cx useIR rest w m   -- a child view taken and dropped leaves the parent as it was
+    | "as_ref" | "as_slice" =>
+      if useIR then cont (Gen.asShared cx.shape m (ps.headD "") w) false else walkPath cx useIR rest w false
     | _ => (.stuck, m, rest)
 
 /-- apply a user write `*ref.leaf = fresh(tag)` at parent position `pos`, both sides -/
@@ -732,7 +815,9 @@ def iterDrive (cx : Ctx) (r : Nat) (writes : Bool) : List Char → View.Win → 
         else if c == 'N' then View.nth v 1 else if c == 'Z' then View.nth v 1000
         else if c == 'R' then View.nthBack v 1 else if c == 'T' then View.lastOf v
         else (none, v)
-      let (yI, vI') := stepOf vI
+      -- the model side steps through the zip chain extracted from /repo (`next` / `next_back` of the iterator kind in use)
+      let (yI, vI') := if c == 'F' then Gen.iterStep cx.shape writes false vI
+                       else if c == 'B' then Gen.iterStep cx.shape writes true vI else stepOf vI
       let (yS, vS') := stepOf vS
       let tag := String.singleton c
       match yI, yS with
